@@ -225,6 +225,7 @@ def build_program(spec, parent=None, numeric=None, name=None, on_cmd=None):
         p = sf.Program(parent, name=name or spec.get("name"))
     else:
         p = sf.Program(spec["n"], name=name or spec.get("name"))
+    shared = {}  # "obj" key -> the one gate object the user created and applies several times, plainly or as .H
     with p.context as q:
         regs = {r.ind: r for r in p.register}
         for idx, o in enumerate(spec["ops"]):
@@ -239,7 +240,12 @@ def build_program(spec, parent=None, numeric=None, name=None, on_cmd=None):
             mv = None
             if numeric is not None and numeric.get("mvals_at") is not None:
                 mv = dict(numeric, mvals=numeric["mvals_at"][idx])
-            op = make_op(o, p, regs, numeric if mv is None else mv)
+            if o.get("obj") is not None:
+                if o["obj"] not in shared:
+                    shared[o["obj"]] = make_op({k_: v_ for k_, v_ in o.items() if k_ != "dag"}, p, regs, numeric if mv is None else mv)
+                op = shared[o["obj"]].H if o.get("dag") else shared[o["obj"]]
+            else:
+                op = make_op(o, p, regs, numeric if mv is None else mv)
             targets = [regs[m] for m in o["m"]]
             op | (targets if len(targets) > 1 else targets[0])
             if on_cmd:
